@@ -202,3 +202,69 @@ Proof. exact call_known_only_listed. Qed.
 Theorem C08_static_listed_functions : forall n, known_value_builtin n || known_asm_builtin n = true ->
   In n [s_sizeof; s_le; s_ascii; s_utf8; s_utf16be; s_utf16le; s_utf32be; s_utf32le; s_strlen; s_incbin; s_incbinstr; s_inchexstr].
 Proof. exact listed_functions. Qed.
+
+(* ===== C08b: the static-value half on the fragment of Model/Resolver2.v (banks with per-bank cursors, nested symbols looked
+   up by dot level and path in symbol contexts, #assert).  Model/ResolverS2.v = Resolver2 with the switch, the `resolved`
+   flags, the matcher's scoped query_variable and the matcher's OWN scope walk (match_all). ===== *)
+From CA Require Import Model.Resolver2 Model.ResolverS2 Proofs.ResolverS2P Proofs.ResolverS2TopP.
+From CA Require Model.Paths Model.Symbols Model.Cursor.
+
+(* the scope match_all's walk hands to the static analysis of an instruction is the scope the resolver iterator resolves
+   it in, at every AST node that is not a symbol declaration *)
+Theorem C08b_matcher_scope_is_node_scope : forall nodes m ctx cs,
+  Symbols.node_ctxs m ctx nodes = Paths.ROk cs ->
+  exists cs', matcher_ctxs m ctx nodes = Paths.ROk cs' /\ length cs' = length cs /\
+    forall j, nth_error nodes j = Some Symbols.AOther -> nth_error cs' j = nth_error cs j.
+Proof. exact matcher_scope_is_node_scope. Qed.
+
+(* a walk that opens a scope at labels only (seeded change C15-6) is a different function: `a:` / x / `k = ..` / y gives y
+   the scope [a] instead of [k] *)
+Theorem C08b_labels_only_walk_refuted :
+  exists m ast cs cs', Symbols.collect Symbols.mgr_new ex_scope_ast = Paths.ROk (m, ast) /\
+    Symbols.node_ctxs m Symbols.ctx_global ast = Paths.ROk cs /\
+    matcher_ctxs_labels_only m Symbols.ctx_global ast = Paths.ROk cs' /\
+    nth_error ast 3 = Some Symbols.AOther /\ nth_error cs 3 = Some [ex_k] /\ nth_error cs' 3 = Some [ex_a].
+Proof. exact labels_only_walk_refuted. Qed.
+
+(* static_known_sound for scoped lookups: in one symbol context, two resolver states in which the statically known
+   constants hold their values answer alike for every name the analysis calls known (whatever bank, position, pass mode) *)
+Theorem C08b_static_known_sound_state : forall m ns K,
+  reserved_free2 m ->
+  (forall r, nth_error (k_sym K) r = Some true -> exists d0 e c, In (XConst r d0 e, c) ns /\ const_known e = true) ->
+  forall c st st' addr addr' cg cg', good2 ns st -> good2 ns st' ->
+  pv_agree (global_known2 true m c (k_sym K)) (pvar2 m st c addr cg) (pvar2 m st' c addr' cg') /\
+  asm_agree (pvar2 m st c addr cg) (pvar2 m st' c addr' cg').
+Proof. exact static_known_sound_scoped. Qed.
+
+(* with the optimisation off ResolverS2 IS Resolver2 (result, pass count, errors and panics).  wf2: no symbol reachable under
+   the name of an asm built-in function; statically known data elements pass their directive's checks *)
+Theorem C08b_static_off_is_resolver2 : forall ac pc indexed defs ps b, wf2 false defs ps ->
+  assembleS2 ac pc false indexed defs ps b = assemble2 indexed defs ps b.
+Proof. exact assembleS2_off. Qed.
+
+(* the switch theorem, PARTIAL.  Full statement: for every budget b, the two settings give the identical answer, or the
+   one-pass situation (b = 1: the unoptimised run fails; b >= 2: the same result in exactly two passes), or b >= 2 and
+   neither run succeeds.  Proved: all of it except that in the last alternative the UNoptimised run fails too. *)
+Theorem C08b_static_switch_partial : forall indexed defs ps, wf2 true defs ps -> forall b,
+  assembleS2 true true true indexed defs ps b = assemble2 indexed defs ps b \/
+  (b = 1%nat /\ assemble2 indexed defs ps b = Overlap.Err /\ forall r, assembleS2 true true true indexed defs ps b = Overlap.Ok r -> r_iters r = 1%nat) \/
+  ((2 <= b)%nat /\ exists r, assembleS2 true true true indexed defs ps b = Overlap.Ok r /\ r_iters r = 1%nat /\
+                             assemble2 indexed defs ps b = Overlap.Ok (set_iters r 2)) \/
+  ((2 <= b)%nat /\ forall r, assembleS2 true true true indexed defs ps b <> Overlap.Ok r).
+Proof. exact switch2_partial. Qed.
+
+Theorem C08b_static_switch_same_result : forall indexed defs ps, wf2 true defs ps -> forall b r r',
+  assembleS2 true true true indexed defs ps b = Overlap.Ok r -> assemble2 indexed defs ps b = Overlap.Ok r' ->
+  set_iters r 0 = set_iters r' 0 /\ counts_ok (r_iters r) (r_iters r').
+Proof. exact switch2_same_result. Qed.
+
+Theorem C08b_static_switch_fwd : forall indexed defs ps, wf2 true defs ps -> forall b r, (2 <= b)%nat ->
+  assembleS2 true true true indexed defs ps b = Overlap.Ok r ->
+  exists n', assemble2 indexed defs ps b = Overlap.Ok (set_iters r n') /\ counts_ok (r_iters r) n'.
+Proof. exact switch2_fwd. Qed.
+
+Example C08b_nonvacuous :
+  exists r, assembleS2 true true true true ex2_defs ex2_ps 3 = Overlap.Ok r /\ assemble2 true ex2_defs ex2_ps 3 = Overlap.Ok r /\
+            r_bits r = [false;false;false;true;false;false;false;false; false;false;false;false;false;true;false;true;
+                        false;false;false;true;false;false;false;false; false;false;false;false;false;false;true;false].
+Proof. exact switch2_nonvacuous. Qed.
